@@ -264,7 +264,7 @@ def kani_counterexample(scratch, ob, res, hto, native_exe_cb):
 
 
 DEFAULT_ALPHABET = ["a", " ", "\n", ":", ";", "{", "}", "(", ")", "/", "*", "#", ",", "\"", "\\", "$", "@", "-", "1"]
-PREFIXES = ["", "a{b:", "$a: 1 ", "a\n  b: c ", "a\n  ", "@media ", "a{"]
+PREFIXES = ["", "a{b:", "$a: 1 ", "a\n  b: c ", "a\n  ", "@media ", "a{", "@charset \"a\"", "@import \"a.css\""]
 
 
 def witness_search(scratch, fn_source_file, fn_text, budget_s=240):
@@ -300,6 +300,9 @@ def witness_search(scratch, fn_source_file, fn_text, budget_s=240):
     t0 = time.time()
     found = []
 
+    import threading
+    confirm_lock = threading.Lock()
+
     def try_one(args):
         i, ext, text = args
         if found or time.time() - t0 > budget_s:
@@ -317,8 +320,18 @@ def witness_search(scratch, fn_source_file, fn_text, budget_s=240):
             if p.returncode < 0:
                 return (ext, text, "killed by signal %d" % -p.returncode)
         except subprocess.TimeoutExpired:
-            os.unlink(path)
-            return (ext, text, "did not return within 3 s (hang)")
+            # a 3 s watchdog under 16-way load proves nothing: confirm alone with a long watchdog
+            try:
+                with confirm_lock:
+                    p = subprocess.run([exe, path], capture_output=True, text=True, timeout=30)
+                os.unlink(path)
+                if p.returncode == 101 or "panicked at" in p.stderr:
+                    m = re.search(r"panicked at ([^\n]*)\n([^\n]*)", p.stderr)
+                    return (ext, text, "panic: " + (m.group(1) + " " + m.group(2) if m else p.stderr[:200]))
+                return None
+            except subprocess.TimeoutExpired:
+                os.unlink(path)
+                return (ext, text, "did not return within 30 s when run alone (hang)")
         return None
 
     def gen():
